@@ -760,6 +760,195 @@ Definition replace (subst : N -> bytes -> bytes) (s : bytes) : res bytes :=
   if negb (has_brace s) then Ok s else replace_loop (S (length s)) subst s [].
 
 (* ------------------------------------------------------------------------------------------ *)
+(* a hello as the peer puts it on the wire; the extensions whose bodies the parser skips        *)
+(* ------------------------------------------------------------------------------------------ *)
+(* TLS record: 3 header bytes (content type, legacy version: clientHelloConn does not look at
+   them), 16-bit length, body *)
+Definition without_exts (h : hello) : hello :=
+  mkHello (h_version h) (h_random h) (h_sid h) (h_ciphers h) (h_comp h) [].
+(* the four things a truncated hello can be recorded as *)
+Definition stage_info (h : hello) (s : nat) : info :=
+  match s with
+  | 0%nat => info0
+  | 1%nat => mkInfo (h_version h) [] [] [] [] []
+  | 2%nat => mkInfo (h_version h) (h_ciphers h) [] [] [] []
+  | _ => mkInfo (h_version h) (h_ciphers h) [] (h_comp h) [] []
+  end.
+Definition cut_stage (h : hello) (k : nat) : nat :=
+  if (k <? 42)%nat then 0%nat
+  else if (k <? 41 + length (h_sid h) + 2 * length (h_ciphers h))%nat then 1%nat
+  else if (k <? 42 + length (h_sid h) + 2 * length (h_ciphers h) + length (h_comp h))%nat then 2%nat
+  else 3%nat.
+
+
+Definition tls_record (hdr3 body : bytes) : bytes := hdr3 ++ be16 (nlen body) ++ body.
+(* server_name (0) with one host_name entry, ALPN (16) with a protocol list: both are [EOther]
+   for parseRawClientHello, which records the type and skips the body *)
+Definition e_server_name (host : bytes) : ext :=
+  EOther 0 (be16 (nlen host + 3) ++ 0 :: be16 (nlen host) ++ host).
+Definition e_alpn (protos : list bytes) : ext :=
+  let l := flat_map (fun p => nlen p :: p) protos in EOther 16 (be16 (nlen l) ++ l).
+
+(* ------------------------------------------------------------------------------------------ *)
+(* mitm.go: tlsHelloListener.Accept and the pooled tee buffers, over ALL interleavings          *)
+(* ------------------------------------------------------------------------------------------ *)
+(* Accept takes the tee buffer of a new connection from a sync.Pool (bufpool.Get: ANY buffer
+   lying in the pool, index [k], or a new empty one) and — [reset] — empties it (buf.Reset());
+   clientHelloConn.Read hands the buffer back (bufpool.Put) once the hello is parsed, with the
+   bytes that followed the ClientHello record in the same reads still in it.  Connections are
+   keyed by remote address [id] (the key of helloInfos). *)
+Inductive ev := EvAccept (id k : nat) | EvRead (id : nat) (seg : bytes).
+Record lstate := mkL { l_pool : list bytes; l_conns : nat -> option conn }.
+Definition upd {A} (m : nat -> option A) (id : nat) (c : option A) : nat -> option A :=
+  fun j => if (j =? id)%nat then c else m j.
+Fixpoint remove_nth {A} (k : nat) (l : list A) : list A :=
+  match l with
+  | [] => []
+  | x :: r => match k with O => r | S k' => x :: remove_nth k' r end
+  end.
+Definition accept (reset : bool) (pool : list bytes) (k : nat) : conn * list bytes :=
+  match nth_error pool k with
+  | None => (conn0, pool)                                           (* bufpool.New *)
+  | Some b => (mkConn false (if reset then [] else b) None, remove_nth k pool)
+  end.
+Definition l_step (reset : bool) (st : lstate) (e : ev) : res lstate :=
+  match e with
+  | EvAccept id k =>
+      let '(c, p) := accept reset (l_pool st) k in Ok (mkL p (upd (l_conns st) id (Some c)))
+  | EvRead id seg =>
+      match l_conns st id with
+      | None => Ok st
+      | Some c =>
+        do c' <- conn_read c seg;
+        let put := negb (c_read_hello c) && c_read_hello c' in          (* bufpool.Put(c.buf) *)
+        Ok (mkL (if put then c_buf c' :: l_pool st else l_pool st) (upd (l_conns st) id (Some c')))
+      end
+  end.
+Fixpoint l_run (reset : bool) (st : lstate) (evs : list ev) : res lstate :=
+  match evs with
+  | [] => Ok st
+  | e :: r => do st' <- l_step reset st e; l_run reset st' r
+  end.
+Definition l_init (pool : list bytes) : lstate := mkL pool (fun _ => None).
+Definition recorded_for (st : lstate) (id : nat) : option info :=
+  match l_conns st id with Some c => c_recorded c | None => None end.
+(* the reads each connection made since it was accepted (specification side) *)
+Definition own_step (accs : nat -> option (list bytes)) (e : ev) : nat -> option (list bytes) :=
+  match e with
+  | EvAccept id _ => upd accs id (Some [])
+  | EvRead id seg => match accs id with Some l => upd accs id (Some (l ++ [seg])) | None => accs end
+  end.
+Definition own_segs (evs : list ev) : nat -> option (list bytes) :=
+  fold_left own_step evs (fun _ => None).
+
+(* ------------------------------------------------------------------------------------------ *)
+(* fastcgi: record.read / streamReader over a connection that delivers SHORT READS              *)
+(* ------------------------------------------------------------------------------------------ *)
+(* io.ReadFull(r, buf[:n]) on a connection whose successive Reads deliver [segs] (a Read into k
+   free bytes takes at most k bytes of the head segment, the rest stays for the next Read; empty
+   reads allowed).  Result: bytes read, what the connection still holds, error class
+   (0 nil, 1 io.EOF = nothing read, 2 io.ErrUnexpectedEOF) *)
+Fixpoint read_full (segs : list bytes) (n : nat) (acc : bytes) {struct segs} : bytes * list bytes * N :=
+  match n with
+  | O => (acc, segs, 0)
+  | S _ =>
+    match segs with
+    | [] => (acc, [], match acc with [] => 1 | _ => 2 end)
+    | s :: r =>
+      if (n <=? length s)%nat
+      then (acc ++ firstn n s, (if (n <? length s)%nat then skipn n s :: r else r), 0)
+      else read_full r (n - length s) (acc ++ s)
+    end
+  end.
+
+Inductive srec_result :=
+| SErr (e : N)
+| SRec (typ : N) (content : bytes) (rest : list bytes).
+
+(* record.read.  [wrap] = the sum ContentLength+PaddingLength computed in uint16 (it is computed
+   in int by the code; the wrapped variant is what the seeded changes C19-m2/m4 introduce) *)
+Definition record_read_seg (wrap : bool) (segs : list bytes) : res srec_result :=
+  let '(h, segs1, e) := read_full segs 8 [] in                    (* binary.Read(r, BigEndian, &rec.h) *)
+  if negb (e =? 0) then Ok (SErr e) else
+  do ver <- idx h 0; do typ <- idx h 1; do cl1 <- idx h 4; do cl0 <- idx h 5; do pl <- idx h 6;
+  if negb (ver =? 1) then Ok (SErr 3) else
+  if typ =? 3 then Ok (SErr 1) else
+  let cl := N.to_nat (u16 cl1 cl0) in
+  let n := if wrap then N.to_nat ((u16 cl1 cl0 + pl) mod 65536) else (cl + N.to_nat pl)%nat in
+  let rbuf := repeat 0 n in                                       (* make([]byte, n) *)
+  do dst <- slice rbuf 0 n;                                       (* rec.rbuf[:n] *)
+  let '(b, segs2, e2) := read_full segs1 (length dst) [] in       (* io.ReadFull *)
+  if negb (e2 =? 0) then Ok (SErr e2) else
+  do content <- slice b 0 cl;                                     (* rec.rbuf[:ContentLength] *)
+  Ok (SRec typ content segs2).
+
+Fixpoint stream_read_seg (wrap : bool) (fuel : nat) (segs : list bytes) : res (bytes * N) :=
+  match fuel with
+  | O => Panic
+  | S f =>
+    do r <- record_read_seg wrap segs;
+    match r with
+    | SErr e => Ok ([], e)
+    | SRec typ content rest =>
+      do t <- stream_read_seg wrap f rest;
+      Ok (if typ =? 7 then t else (content ++ fst t, snd t))
+    end
+  end.
+Definition stream_read_segs (wrap : bool) (segs : list bytes) : res (bytes * N) :=
+  stream_read_seg wrap (S (length (concat segs))) segs.
+
+(* ------------------------------------------------------------------------------------------ *)
+(* replacer.go {labelN}: the host label picked by a peer-supplied Host header                   *)
+(* ------------------------------------------------------------------------------------------ *)
+(* Ok None = the empty value, Ok (Some l) = labels[n-1] *)
+Definition label_subst (host nstr : bytes) : res (option bytes) :=
+  match atoi nstr with
+  | None => Ok None
+  | Some n =>
+    if (n <? 1)%Z then Ok None else
+    let labels := split 46 host in
+    if (Z.of_nat (length labels) <? n)%Z then Ok None else
+    do l <- idx labels (Z.to_nat (n - 1)); Ok (Some l)
+  end.
+
+(* ------------------------------------------------------------------------------------------ *)
+(* proxy.go createUpstreamRequest: X-Forwarded-For folding                                      *)
+(* ------------------------------------------------------------------------------------------ *)
+Fixpoint join (sep : bytes) (l : list bytes) : bytes :=
+  match l with
+  | [] => []
+  | x :: r => match r with [] => x | _ => x ++ sep ++ join sep r end
+  end.
+Definition comma_sp : bytes := [44; 32].
+(* prior = the X-Forwarded-For values the peer sent (None: header absent); ip = host part of
+   the connection's remote address *)
+Definition xff_fold (prior : option (list bytes)) (ip : bytes) : bytes :=
+  match prior with None => ip | Some p => join comma_sp p ++ comma_sp ++ ip end.
+Definition last_elem (s : bytes) : bytes := trim_space (last (split COMMA s) []).
+
+(* ------------------------------------------------------------------------------------------ *)
+(* websocket.go findIncompleteRuneLength (bytes of the command's output, for an echoing          *)
+(* command the peer's own bytes)                                                                *)
+(* ------------------------------------------------------------------------------------------ *)
+Fixpoint firl_loop (p : bytes) (len : nat) (start : nat) (steps : nat) {struct steps} : res nat :=
+  match steps with
+  | O => Ok O
+  | S k =>
+    do b <- idx p start;
+    if b / 32 =? 6 then Ok (if (2 <=? len - start)%nat then O else 1%nat)
+    else if b / 16 =? 14 then Ok (if (3 <=? len - start)%nat then O else (len - start)%nat)
+    else if b / 8 =? 30 then Ok (if (4 <=? len - start)%nat then O else (len - start)%nat)
+    else match start with O => Ok O | S s' => firl_loop p len s' k end
+  end.
+Definition find_incomplete_rune_length (p : bytes) (len : nat) : res nat :=
+  if (len =? 0)%nat then Ok O else
+  do lastb <- idx p (len - 1);
+  if lastb <? 128 then Ok O else
+  let lowest := (len - 4)%nat in
+  (* for start := length-1; start >= lowest; start-- : (len - lowest) iterations *)
+  firl_loop p len (len - 1) (len - lowest).
+
+(* ------------------------------------------------------------------------------------------ *)
 (* correspondence cases and judge                                                              *)
 (* ------------------------------------------------------------------------------------------ *)
 Definition oinfo_beq (a b : option info) : bool :=
@@ -808,7 +997,31 @@ Inductive case :=
 | CTls (wire : bytes) (sizes : list nat) (ok : bool) (obs_rec : option info) (obs_direct : info)
 (* code paths that are exercised but not modelled (net/http parsing in front of basicauth,
    matchers, cookies ...): only panic / no panic is judged *)
-| CTotal (kind : N) (obs_panic : bool).
+| CTotal (kind : N) (obs_panic : bool)
+(* a structured hello followed by [g] through parseRawClientHello *)
+| CHelloTrail (h : hello) (g : bytes) (data : bytes) (obs : option info)
+(* the first [k] bytes of a structured hello through parseRawClientHello *)
+| CHelloCut (h : hello) (k : nat) (data : bytes) (obs : option info)
+(* websocket `type text` in front of an echoing command: the peer's message [data] comes back as
+   one text message [obs] cut before an incomplete trailing UTF-8 sequence *)
+| CWs (data : bytes) (obs_panic : bool) (obs : bytes)
+(* END TO END: a structured hello framed as a TLS record, followed by [rest], cut into reads of
+   [sizes], through clientHelloConn: what is recorded *)
+| CHelloConn (h : hello) (rest : bytes) (wire : bytes) (sizes : list nat) (obs_panic : bool) (obs_rec : option info)
+(* the running TLS server (real tlsHelloListener.Accept, pooled buffers): earlier connections wrote
+   [stale] (each one write: a hello record and more), then a real handshake whose ClientHello
+   record is [wire]; obs_rec = recorded for that last connection, obs_direct = the implementation's
+   parse of its record body *)
+| CPool (stale : list bytes) (wire : bytes) (ok : bool) (obs_rec : option info) (obs_direct : info)
+(* FastCGI response bytes delivered by the underlying connection in reads [segs]; [rs] = the
+   records the bytes were built from, if any (tail: 0 end-request, 1 close); obs1/oe1 = what the
+   implementation returned for the same bytes delivered in one piece *)
+| CStreamSeg (rs : option (list frec * N)) (segs : list bytes) (obs_panic : bool) (obs : bytes) (obs_err : N)
+             (obs1 : bytes) (oe1 : N)
+(* {labelN} with Host [host]; obs = None for the empty value *)
+| CLabel (host nstr : bytes) (obs_panic : bool) (obs : option bytes)
+(* proxy: X-Forwarded-For values sent by the peer, connection address; obs = header at the backend *)
+| CXff (prior : option (list bytes)) (ip : bytes) (obs_panic : bool) (obs : bytes).
 
 (* values of the placeholders as observed from the implementation; a placeholder that is not in
    the table gets what getSubstitution returns for unknown names: "" for {?name} and {$name}
@@ -934,4 +1147,62 @@ Definition judge (c : case) : N :=
         end in
       verdict agree (ok && oinfo_beq orec (Some odirect))
   | CTotal _ op => verdict true (negb op)
+  | CHelloTrail h g data obs =>
+      verdict (beq (encode_hello h ++ g) data && oinfo_beq (res_oinfo (parse_raw_client_hello data)) obs)
+              (negb (hello_wf h) ||
+               oinfo_beq obs (Some (info_of (match g with [] => h | _ => without_exts h end))))
+  | CHelloCut h k data obs =>
+      verdict (beq (firstn k (encode_hello h)) data && oinfo_beq (res_oinfo (parse_raw_client_hello data)) obs)
+              (negb (hello_wf h) || negb (k <? length (encode_hello h))%nat ||
+               oinfo_beq obs (Some (stage_info h (cut_stage h k))))
+  | CWs data op obs =>
+      let agree := match find_incomplete_rune_length data (length data) with
+                   | Panic => op
+                   | Ok r => negb op && beq obs (firstn (length data - r) data)
+                   end in
+      verdict agree (negb op && prefixb obs data && (length data <=? length obs + 3)%nat)
+  | CHelloConn h rest wire sizes op orec =>
+      let w := tls_record [22; 3; 1] (encode_hello h) ++ rest in
+      let agree := beq w wire &&
+                   match conn_run conn0 (cut wire sizes) with
+                   | Panic => op
+                   | Ok st => negb op && oinfo_beq (c_recorded st) orec
+                   end in
+      let complete := (5 + length (encode_hello h) <=? sum_nat sizes)%nat in
+      verdict agree (negb op &&
+                     (negb (hello_wf h && (nlen (encode_hello h) <? 65536)) ||
+                      oinfo_beq orec (if complete then Some (info_of h) else None)))
+  | CPool stale wire ok orec odirect =>
+      let n := length stale in
+      let evs := concat (map (fun iw => [EvAccept (fst iw) 0; EvRead (fst iw) (snd iw)])
+                             (combine (seq 0 n) stale)) ++ [EvAccept n 0; EvRead n wire] in
+      let agree := match l_run true (l_init []) evs with
+                   | Ok st => oinfo_beq (recorded_for st n) orec
+                   | Panic => false
+                   end in
+      verdict agree (ok && oinfo_beq orec (Some odirect))
+  | CStreamSeg rs segs op obs oe obs1 oe1 =>
+      let agree := match stream_read_segs false segs with
+                   | Panic => op
+                   | Ok (d, e) => negb op && beq d obs && (e =? oe)
+                   end &&
+                   match rs with
+                   | Some (l, tail) => beq (concat segs) (flat_map enc_rec l ++ (if tail =? 0 then end_request else []))
+                   | None => true
+                   end in
+      (* no panic; the same as for the bytes in one piece; the stdout the records were built from *)
+      verdict agree (negb op && beq obs obs1 && (oe =? oe1) &&
+                     match rs with
+                     | Some (l, _) => negb (forallb frec_wf l) || (beq obs (stdout_of l) && (oe =? 1))
+                     | None => true
+                     end)
+  | CLabel host nstr op obs =>
+      let agree := match label_subst host nstr with
+                   | Panic => op
+                   | Ok None => negb op && match obs with None => true | Some _ => false end
+                   | Ok (Some l) => negb op && match obs with Some o => beq l o | None => false end
+                   end in
+      verdict agree (negb op)
+  | CXff prior ip op obs =>
+      verdict (negb op && beq (xff_fold prior ip) obs) (negb op && beq (last_elem obs) ip)
   end.
